@@ -253,6 +253,32 @@ func (m *moCtx) stmt(s ast.Stmt) bool {
 			return m.stmt(el)
 		}
 		return true
+	case *ast.SwitchStmt:
+		// a switch over a pure tag with pure case values: each clause body is judged like an if
+		// body (fallthrough only chains two such bodies)
+		if x.Init != nil && !m.stmt(x.Init) {
+			return false
+		}
+		if x.Tag != nil && !m.pureExpr(x.Tag) {
+			return false
+		}
+		for _, cl := range x.Body.List {
+			cc := cl.(*ast.CaseClause)
+			for _, v := range cc.List {
+				if !m.pureExpr(v) {
+					return false
+				}
+			}
+			for _, st := range cc.Body {
+				if br, ok := st.(*ast.BranchStmt); ok && (br.Tok == token.FALLTHROUGH || (br.Tok == token.BREAK && br.Label == nil)) {
+					continue
+				}
+				if !m.stmt(st) {
+					return false
+				}
+			}
+		}
+		return true
 	case *ast.ReturnStmt:
 		// any/all boolean or error return: constants, nil, or an error value
 		for _, r := range x.Results {
